@@ -199,6 +199,7 @@ def check_family(ctx, report, rule, facts, config, families, only=None):
             report.ob(rule, "%s/%s/ANCHOR" % (family, ident), False, "anchor not found: %s" % getattr(body, "msg", body), config=config)
             continue
         report.touched(body, config)
+        _forwarded_args(prog, report, rule, "%s/%s" % (family, ident), body, config)
         for chk in checks:
             label, src, names, expect = chk[:4]
             inline = chk[4] if len(chk) > 4 else ()
@@ -368,6 +369,7 @@ def unlisted(ctx, report, rule, facts, config, families, only=None):
             except Exception as e:
                 report.ob(rule, "%s/%s/receivers" % (family, r.qname), False, "%s could not be evaluated (%s)" % (r.qname, e), site=r.loc(), config=config)
                 continue
+            _forwarded_args(prog, report, rule, "%s/%s" % (family, r.qname), r, config, member_names)
             delegated = False
             own = []
             for e in ends:
@@ -403,6 +405,31 @@ def unlisted(ctx, report, rule, facts, config, families, only=None):
                           "%s hands part of what it holds to %s (%s) without a complete traversal of a carrier field" % (r.qname, own[0][2].name, ev.loc(own[0][1])),
                           site=(ev.loc(own[0][1]) if own else r.loc()), config=config)
     report.ob(rule, "UNLISTED/inventory", True, "%d (unlisted carrier method, field) pair(s) held to all-or-nothing coverage" % n, config=config)
+
+
+ALL_LIFECYCLE = LIFECYCLE[RUN] | LIFECYCLE[SETUP] | LIFECYCLE[DISPOSE]
+
+
+def _forwarded_args(prog, report, rule, inst, body, config, extra_opaque=()):
+    """What a lifecycle method hands to the lifecycle methods it calls - the world, the pool - is what it was handed itself or
+    what it keeps: an argument made from nothing (a fresh `World::empty()`) runs the systems against something else."""
+    from . import semq as Q
+    from .semcov import evaluate
+    try:
+        ev, ends = evaluate(prog, body, extra_opaque)
+    except Exception:
+        return      # reported by the coverage obligations of the same method
+    bad = []
+    for e in ends:
+        if e.kind != "return":
+            continue
+        for x in Q.calls_in(e.path.events, lambda c: c.name in ALL_LIFECYCLE and (c.local or c.trait in LIFECYCLE_TRAITS), deep=True):
+            for i, a in enumerate(x[3][1:], 1):
+                if not Q.origins(ev, a) and not (isinstance(a, tuple) and a and a[0] in ("int", "unit", "fnref")):
+                    bad.append((x[2].name, i, ev.loc(x[1])))
+    report.ob(rule, inst + "/arguments", not bad, "what is handed on to the lifecycle calls comes from the method's own arguments or fields" if not bad else
+              "argument %d of `%s` (%s) is made from nothing - not the caller's world / pool, nor anything the carrier keeps" % (bad[0][1], bad[0][0], bad[0][2]),
+              site=(bad[0][2] if bad else body.loc()), config=config)
 
 
 def _family_pred(names, body):
